@@ -521,3 +521,7 @@ CLAIMS["C11"]["text"] += _GRPD + "."
 CLAIMS["C12"]["text"] += _GRPD + (", FcProps/KTieGrpPollDS.lean (StreamGroup::poll_next_inner refines Eng.poll group; hypothesis SlotNamed: "
     "members named by their keys - the environment's slot annotation of childBegin for a caller's waker is the member's number, "
     "the model's is the key; the statement without it is refuted, v0_false).")
+CLAIMS["C11"]["text"] = CLAIMS["C11"]["text"][:-1] + (", FcProps/KTieGrpPollDF.lean (FutureGroup::poll_next_inner refines Eng.poll group: "
+    "poll_tie, poll_tie_inv, poll_tie_chain; the event traces are compared after erasing the slot annotation of childBegin - the "
+    "environment's annotation for a caller's waker is the member's number, the model's is the key; the statement with exact traces "
+    "is refuted, v0_false).")
